@@ -19,7 +19,7 @@ RULE = ('Dispatch: EVERY operation sequence of depth <= D over a 21-operation al
         'unconnect(callback), unconnect(sender), unconnect(owner of a bound method), reset, '
         'set_silent(T/F), enter/exit silent() (well nested), exit silent() by an exception, 4 emits} on a '
         'fresh EventEmitter, followed by probe emits; plus seeded random histories of length <= 14 over '
-        'the full alphabet (3 callbacks, 2 events, senders S1/S2, single, args/kwargs), a third of them '
+        'the full alphabet (3 callbacks, 2 events, senders S1/S2 with value equality - every other emit comes from an equal but distinct sender object -, single, args/kwargs), a third of them '
         'through the module-level global emitter. Every callback invocation is recorded by the callback '
         'itself (id, sender, args, kwargs) and each emit is compared with a list reference machine. '
         'Progress: EVERY history of depth <= P over {increment, value=0..3, max=0..3, set_complete, '
@@ -39,11 +39,19 @@ NSHARDS = 16
 
 
 class Sender(object):
+    """Sender with value semantics: two instances with the same name are equal (the statement says a filter
+    applies when it EQUALS the emitting sender)."""
     def __init__(self, name):
         self.name = name
 
     def __repr__(self):
         return self.name
+
+    def __eq__(self, other):
+        return isinstance(other, Sender) and other.name == self.name
+
+    def __hash__(self):
+        return hash(self.name)
 
 
 class World(object):
@@ -160,7 +168,10 @@ class World(object):
             kw = dict(kwargs)
             if single:
                 kw['single'] = True
-            r = call(self.f['emit'], event, self.S[s], *args, **kw)
+            # every other emit comes from an equal but distinct sender object
+            self.n_emits = getattr(self, 'n_emits', 0) + 1
+            sender_obj = self.S[s] if self.n_emits % 2 else Sender(s)
+            r = call(self.f['emit'], event, sender_obj, *args, **kw)
             if not r.ok:
                 return 'emit raised %r' % r.exc
             got = [(c[0], event) for c in self.log]
@@ -170,7 +181,7 @@ class World(object):
                     event, s, ', single' if single else '', [g[0] for g in got], [e[0] for e in exp_tok],
                     ' (silenced)' if self.ref.silent else '')
             for c in self.log:
-                if c[1] is not self.S[s] or tuple(c[2]) != tuple(args) or c[3] != dict(kwargs):
+                if c[1] is not sender_obj or tuple(c[2]) != tuple(args) or c[3] != dict(kwargs):
                     return 'callback %s received sender/args %r %r %r, emitted %r %r' % (
                         c[0], c[1], c[2], c[3], args, kwargs)
             if not self.ref.silent:
